@@ -12,6 +12,15 @@ pub assume_specification<T, P> [std::option::Option::<T>::filter] (o: Option<T>,
             o is Some ==> ((p.ensures((&o->0,), true) && r == o) || (p.ensures((&o->0,), false) && r is None));
 '''
 
+OPTION_IS_SOME_AND = r'''
+#[verifier::allow(undeclared_external_trait)]
+pub assume_specification<T, P> [std::option::Option::<T>::is_some_and] (o: Option<T>, p: P) -> (r: bool)
+    where P: std::ops::FnOnce(T,) -> bool + std::marker::Destruct, T: std::marker::Destruct,
+    requires o is Some ==> p.requires((o->0,)),
+    ensures o is None ==> !r,
+            o is Some ==> p.ensures((o->0,), r);
+'''
+
 VECDEQUE_FRONT = r'''
 pub assume_specification<T, A> [std::collections::VecDeque::<T, A>::front] (d: &std::collections::VecDeque<T, A>) -> (r: Option<&T>)
     where A: std::alloc::Allocator,
